@@ -1,6 +1,7 @@
 import Mdsort.Proofs.World
 import Mdsort.Proofs.WorldFrameMain
 import Mdsort.Proofs.WorldStdinExample
+import Mdsort.Proofs.EvalPFail
 
 /-!
 # C04 - the exit status tells the truth (MDA contract, error isolation)
@@ -125,8 +126,11 @@ issued, and the index of the next call (`Proofs.Own.runOracle_eq`). -/
 /-- **One message.**  After processing a message the flag is the flag before or-ed with the
 message's own error bit `Proofs.msgError` (Proofs/WorldFrameErr.lean): the file is unknown to the
 model, `message_parse` failed (open/read failure, over-long path or name, invalid flag suffix), the
-rules' verdict is an evaluation error or an interpolation failure, or - not in a dry run - the action
-list reported an error. -/
+rules' verdict IN THIS RUN is an evaluation error or an interpolation failure, or - not in a dry run - the action
+list reported an error.  Evaluation is part of the run (`Model.evalP`): the verdict is `Proofs.evVerdict` of the value
+`evalP` returns on the results `orcl` gives to its calls, so the evaluation errors include the conditions the operating
+system could not answer - `C04_evaluation_failure_is_error`, `C04_command_failure_causes`, `C04_date_stat_failure`,
+`C04_message_error_of_eval_error` below. -/
 theorem C04_message_error_iff (env : PEnv) (orc : EvalOracles) (expr : Expr) (md : Maildir) (name : Bytes) (st : MainSt)
     (orcl : Nat → Call → Res) (i : Nat) (tr : List (Call × Res)) :
     (runOracle orcl (processMessage env orc expr md name st) i tr).1.1.error =
@@ -252,5 +256,82 @@ theorem C04_reject_no_call (env : PEnv) (mh : Match) (st : ExecSt) (h : mh.ty = 
 example (st : ExecSt) : execOne Proofs.StdinExample.env0 { ty := .reject, lno := 1, part := 0 } st =
     Prog.ret ({ st with reject := true }, false) :=
   C04_reject_no_call _ _ _ rfl
+
+
+/-! ## Evaluation errors caused by the operating system
+
+`command`, `isdirectory` and the file-time `date` conditions ask the operating system while the rules are evaluated
+(`Model.evalP`, Model/EvalP.lean; `C03_evaluation_calls`).  `Proofs.FailAns tf q a`: the answer `a` to the question `q`
+is a failure - the value of `exec(argv, -1)` is negative (`command`), or `stat` of the message's path failed / `time_format`
+returned NULL (file-time `date`).  `isdirectory` has no failing answer: a path that cannot be stat'ed is not a directory
+(`expr_eval_stat`; the condition is false, nothing is reported). -/
+
+/-- **A question the operating system could not answer makes the evaluation an error, at once** - for every rule tree,
+wherever the condition stands in it (inside `and` / `or` / `!` / nested blocks / `attachment`), whatever the other
+calls return: if in the run of `evalP` the answer to question number `k` is a failure, the value is *error* and no
+further question is asked (`EXPR_ERROR` is passed up through every `expr_eval_*`). -/
+theorem C04_evaluation_failure_is_error (env : Env) (tf : Int → Option Bytes) (e : Expr) (m : Msg) (fl : MFlags)
+    (orcl : Nat → Call → Res) (i : Nat) (k : Nat) (q : Req) (a : SysAns)
+    (hq : (evalR env tf e m fl ((evalTop env tf e m fl).answers orcl i)).2[k]? = some q)
+    (ha : ((evalTop env tf e m fl).answers orcl i)[k]? = some a) (hF : Proofs.FailAns tf q a) :
+    (Proofs.Own.runO orcl (evalP env tf e m fl) i).1.1 = .error ∧
+    (evalR env tf e m fl ((evalTop env tf e m fl).answers orcl i)).2.length = k + 1 :=
+  Proofs.evalP_error_of_fail env tf e m fl orcl i k q a hq ha hF
+
+/-- Non-vacuity: `match command "t" or all move "/d"` when `fork` fails: one question, a failing answer. -/
+example :
+    let e : Expr := .mtch 1 (.or 1 (.command 1 [[116]]) (.all 1)) (.move 1 [47, 100])
+    let env := Proofs.msgEnv Proofs.examplePEnv Proofs.exampleOracles [47, 109, 47, 110, 101, 119, 47, 49]
+    let m := parseMessage [83, 117, 98, 106, 101, 99, 116, 58, 32, 120, 10, 10, 98, 10]
+    let orcl : Nat → Call → Res := fun _ c => match c with | .fork => .err "EAGAIN" | _ => .ok 0
+    (evalTop env (fun _ => none) e m MFlags.empty).answers orcl 0 = [.status (-1)] ∧
+    (evalR env (fun _ => none) e m MFlags.empty [.status (-1)]).2 = [.command [[116]]] ∧
+    Proofs.FailAns (fun _ => none) (.command [[116]]) (.status (-1)) ∧
+    (Proofs.Own.runO orcl (evalP env (fun _ => none) e m MFlags.empty) 0).1.1 = .error := by
+  simp only [evalP, evalR, evalTop, evalT, eval]
+  refine ⟨by decide +kernel, by decide +kernel, ?_, by decide +kernel⟩
+  show ((-1 : Int) < 0)
+  decide
+
+/-- **Which call results make a `command` condition fail**: its answer is the value of util.c `exec(argv, -1)` on the
+results of `open("/dev/null")`, `fork`, `waitpid` (`Proofs.execValue`), and that value is negative exactly when
+`/dev/null` cannot be opened, `fork` fails, `waitpid` fails, or the child exited with status 127 (`execvp` failed).
+Every other status - 0, another exit code, death by a signal - is match / no match, not an error. -/
+theorem C04_command_failure_causes (av : List Bytes) (orcl : Nat → Call → Res) (j : Nat) :
+    (Proofs.Own.runO orcl (sysCall (.command av)) j).1 =
+      .status (match orcl j (.openPath (ofString "/dev/null")) with
+        | .ok _ => Proofs.execValue true (orcl (j + 1) .fork) (orcl (j + 2) .waitpid)
+        | _ => Proofs.execValue false (orcl (j + 1) .fork) (orcl (j + 2) .waitpid)) ∧
+    ∀ (d : Bool) (f w : Res), Proofs.execValue d f w < 0 ↔
+      d = false ∨ (∀ v, f ≠ .ok v) ∨ (∀ s, w ≠ .ok s) ∨ ∃ s, w = .ok s ∧ s % 128 = 0 ∧ (s / 256) % 256 = 127 :=
+  ⟨Proofs.sysCall_command_value av orcl j, Proofs.execValue_neg_iff⟩
+
+/-- **A failing `stat` of the message's path makes a file-time `date` condition fail**: the answer to the question is
+what `stat` returned, and a `stat` that does not succeed (`EACCES`, `EIO`, `ENOENT`: the message was removed meanwhile)
+is a failing answer. -/
+theorem C04_date_stat_failure (tf : Int → Option Bytes) (p : Bytes) (f : DateField) (orcl : Nat → Call → Res) (j : Nat) :
+    (Proofs.Own.runO orcl (sysCall (.fileTime p f)) j).1 = .stat (statAnswer (orcl j (.stat p))) ∧
+    ((∀ v, orcl j (.stat p) ≠ .ok v) → Proofs.FailAns tf (.fileTime p f) (.stat (statAnswer (orcl j (.stat p))))) :=
+  ⟨Proofs.sysCall_fileTime_value p f orcl j, Proofs.failAns_fileTime_of_stat_failed tf p f _⟩
+
+example : (∀ v, (Res.err "EACCES") ≠ .ok v) := fun _ h => by cases h
+
+/-- **... and an evaluation error is an error of that message** (`C04_message_error_iff`): if the message was parsed and
+the evaluation of the rules in this run says *error*, the message's error bit is set. -/
+theorem C04_message_error_of_eval_error (env : PEnv) (orc : EvalOracles) (expr : Expr) (md : Maildir) (name : Bytes)
+    (st : MainSt) (orcl : Nat → Call → Res) (i : Nat) (d : Handle) (content : Bytes) (ms : MsgSt)
+    (hd : md.dirH = some d) (hf : st.files.get md.path name = some content)
+    (hparse : (Proofs.Own.runO orcl (messageParseP d md.path name content) i).1 = some ms)
+    (hev : (Proofs.Own.runO orcl (Proofs.evalMs env orc expr ms)
+      (Proofs.Own.runO orcl (messageParseP d md.path name content) i).2.2).1.1 = .error) :
+    Proofs.msgError env orc expr md name st orcl i = true := by
+  unfold Proofs.msgError
+  simp only [hd, hf, hparse]
+  generalize (Proofs.Own.runO orcl (Proofs.evalMs env orc expr ms)
+    (Proofs.Own.runO orcl (messageParseP d md.path name content) i).2.2).1 = ev at hev ⊢
+  obtain ⟨t, est⟩ := ev
+  dsimp only at hev
+  subst hev
+  rfl
 
 end Mdsort.Props
